@@ -13,31 +13,7 @@ using namespace vf;
 namespace M = model;
 static const size_t DBUF = CDNS::CdnsDecoder::BUFFER_SIZE;
 
-struct LibRead {
-  bool ctor_ok = false;
-  std::string preamble;
-  std::vector<std::string> blocks;   // canonical dump per block returned
-  bool eof = false;                  // read_block reported eof
-  std::string exc_type, exc_what;    // exception that ended reading (if any)
-};
-static LibRead lib_read(const std::string& bytes, bool with_earliest) {
-  LibRead r;
-  std::istringstream is(bytes);
-  try {
-    CDNS::CdnsReader rd(is);
-    r.ctor_ok = true;
-    r.preamble = M::dump(adapt::model_preamble(rd.m_file_preamble));
-    for (;;) {
-      bool eof = false;
-      CDNS::CdnsBlockRead b = rd.read_block(eof);
-      if (eof) { r.eof = true; break; }
-      r.blocks.push_back(M::dump_block(adapt::model_block(b), with_earliest));
-    }
-  } catch (const CDNS::CdnsDecoderEnd& e) { r.exc_type = "CdnsDecoderEnd"; r.exc_what = e.what();
-  } catch (const CDNS::CdnsDecoderException& e) { r.exc_type = "CdnsDecoderException"; r.exc_what = e.what();
-  } catch (const std::exception& e) { r.exc_type = "std::exception"; r.exc_what = e.what(); }
-  return r;
-}
+#include "c08_core.inc"
 
 // ---- C05 (file level) ---------------------------------------------------------------------------
 // sets the sampling-method text of parameter set 0 to `len` filler characters (valid C-DNS, same structure)
@@ -158,39 +134,13 @@ static void c05_file(Case& cs) {
 
 // ---- C08 ---------------------------------------------------------------------------------------
 static void c08_rewrite(Case& cs) {
-  Chooser& c = cs.c;
-  filegen::Opts fo;
-  fo.max_records = 6 + cs.size / 3;
-  filegen::Result fr = filegen::make(c, cs.scratch, fo);
-  cref::Node root; std::string err;
-  if (!cref::parse_all(fr.bytes, root, err)) { cs.st.cnt("blocked:generated_file_not_well_formed"); return; }
-  cref::RwOpts ro;
-  ro.p_num = (unsigned)c.range(1, 3); ro.p_den = (unsigned)c.pick<int>({4, 8, 16});
-  ro.permute_maps = c.range(0, 3) != 0;
-  ro.insert_unknown = c.range(0, 3) != 0;
-  ro.unknown_depth = c.range(0, 5) == 0 ? 30 : 3;
-  cref::RwStats rs;
-  std::string rew;
-  cref::encode_rw(root, rew, c, ro, rs, [](const cref::Node&) { return true; });
-  // guard of the rewriter itself: the independent reader must see the same document
-  M::FileM a, b; cdnsref::Report ra, rb;
-  bool oka = cdnsref::interpret(fr.bytes, a, ra), okb = cdnsref::interpret(rew, b, rb);
-  if (!oka || !ra.ok()) { cs.st.cnt("blocked:original_invalid"); return; }
-  if (!okb || !rb.ok() || M::dump_file(a) != M::dump_file(b)) { fprintf(stderr, "harness bug: rewrite changed the reference interpretation: %s\n", rb.first().c_str()); abort(); }
-  LibRead lo = lib_read(fr.bytes, true), lr = lib_read(rew, true);
-  std::string desc = "file " + std::to_string(fr.bytes.size()) + " B -> " + std::to_string(rew.size()) + " B; rewrites: widened=" + std::to_string(rs.widened) + " indefinite=" + std::to_string(rs.indef_cont) +
-                     " chunked=" + std::to_string(rs.chunked) + " permuted=" + std::to_string(rs.permuted) + " unknown_members=" + std::to_string(rs.inserted);
-  cs.sample = desc;
-  if (cs.replay) printf("%s\norig=%s\nrew =%s\n", desc.c_str(), hex(fr.bytes, 400).c_str(), hex(rew, 600).c_str());
-  VF_CHECK(lo.ctor_ok && lo.eof, "sig=c08.original_unreadable original file not readable: " << lo.exc_type << " " << lo.exc_what);
-  // which rewrite kinds were applied decides the signature (for known-finding bookkeeping)
-  std::string kinds = std::string(rs.widened ? "w" : "") + (rs.indef_cont ? "i" : "") + (rs.chunked ? "c" : "") + (rs.permuted ? "p" : "") + (rs.inserted ? "u" : "");
-  VF_CHECK(lr.ctor_ok && lr.exc_type.empty() && lr.eof, "sig=c08.rewritten_rejected equivalent re-encoding rejected (" << lr.exc_type << ": " << lr.exc_what << ") after " << lr.blocks.size() << " blocks; kinds=" << kinds << " : " << desc);
-  VF_CHECK(lo.preamble == lr.preamble, "sig=c08.preamble_differs preamble differs after re-encoding; kinds=" << kinds << " : " << desc << "\n" << lo.preamble << "---\n" << lr.preamble);
-  VF_CHECK(lo.blocks.size() == lr.blocks.size(), "sig=c08.block_count " << lo.blocks.size() << " vs " << lr.blocks.size() << " blocks; kinds=" << kinds << " : " << desc);
-  for (size_t i = 0; i < lo.blocks.size(); i++)
-    VF_CHECK(lo.blocks[i] == lr.blocks[i], "sig=c08.block_differs block " << i << " decodes differently after re-encoding; kinds=" << kinds << " : " << desc << "\n" << lo.blocks[i].substr(0, 1500) << "---\n" << lr.blocks[i].substr(0, 1500));
-  cs.nontrivial = rs.total() > 0 && !a.blocks.empty();
+  C08Out o;
+  std::string msg = c08_core(cs.c, cs.scratch, cs.size, o, cs.replay);
+  cs.sample = o.sample;
+  if (o.blocked) { cs.st.cnt("blocked:generated_file_unusable"); return; }
+  if (!msg.empty()) throw Failure(msg);
+  cs.nontrivial = o.nontrivial;
+  const cref::RwStats& rs = o.rs;
   if (rs.widened) cs.st.cls("rw:widened_head"); if (rs.indef_cont) cs.st.cls("rw:indefinite"); if (rs.chunked) cs.st.cls("rw:chunked_string");
   if (rs.permuted) cs.st.cls("rw:permuted_map"); if (rs.inserted) cs.st.cls("rw:unknown_member");
   cs.st.cnt("rewrites_applied", rs.total());
